@@ -874,7 +874,7 @@ fn parse_and_verify_peer_id(
             tracing::debug!(target: LOG_TARGET, "payload without signature");
         })?;
 
-    let peer_id = PeerId::from_public_key_protobuf(&identity);
+    let peer_id = remote_public_key.to_peer_id(&identity);
 
     if !remote_public_key.verify(
         &[STATIC_KEY_DOMAIN.as_bytes(), dh_remote_pubkey].concat(),
